@@ -194,7 +194,7 @@ def c07(ctx):
     if ctx.replay:
         return do_replay(ctx)
     if ctx.quick:
-        jobs = hist_jobs(ctx, "c07", 48, 1200) + hist_jobs(ctx, "c07", 8, 700, flavour="asan", first=1000, per_proc=1)
+        jobs = hist_jobs(ctx, "c07", 96, 1200) + hist_jobs(ctx, "c07", 8, 700, flavour="asan", first=1000, per_proc=1)
     else:
         jobs = hist_jobs(ctx, "c07", 1200, 4000, per_proc=16) + \
             hist_jobs(ctx, "c07", 200, 1500, flavour="asan", first=100000, per_proc=8)
@@ -219,7 +219,7 @@ def c13(ctx):
     if ctx.replay:
         return do_replay(ctx)
     if ctx.quick:
-        jobs = hist_jobs(ctx, "c13", 64, 1000) + crash_jobs(ctx, "c05", 6, 40, 0, 2, 6, first=500) + \
+        jobs = hist_jobs(ctx, "c13", 96, 1000) + crash_jobs(ctx, "c05", 6, 40, 0, 2, 6, first=500) + \
             crash_jobs(ctx, "c03", 10, 90, 0, 2, 12, first=600)
     else:
         jobs = hist_jobs(ctx, "c13", 1000, 2500, per_proc=16) + crash_jobs(ctx, "c05", 32, 150, 0, 2, 20, first=500) + \
@@ -255,7 +255,7 @@ def c14(ctx):
     if ctx.replay:
         return do_replay(ctx)
     if ctx.quick:
-        jobs = hist_jobs(ctx, "c14", 64, 1000)
+        jobs = hist_jobs(ctx, "c14", 160, 1000)
     else:
         jobs = hist_jobs(ctx, "c14", 1000, 2500, per_proc=16)
     agg = Agg().add(runner.run_jobs(jobs))
@@ -336,7 +336,7 @@ def c02(ctx):
     if ctx.replay:
         return do_replay(ctx)
     if ctx.quick:
-        jobs = crash_jobs(ctx, "c02", 12, 100, 0, 1, 0) + crash_jobs(ctx, "c02", 4, 90, 0, 1, 0, first=300, writers=3)
+        jobs = crash_jobs(ctx, "c02", 16, 100, 0, 1, 0) + crash_jobs(ctx, "c02", 8, 90, 0, 1, 0, first=300, writers=3)
     else:
         jobs = crash_jobs(ctx, "c02", 96, 300, 0, 2, 20) + crash_jobs(ctx, "c02", 32, 240, 0, 1, 0, first=300, writers=3)
     agg = Agg().add(runner.run_jobs(jobs))
@@ -498,7 +498,7 @@ def c08(ctx):
     if ctx.replay:
         return do_replay(ctx)
     if ctx.quick:
-        jobs = conc_jobs(ctx, 16, 50, native=0, variant=[0, 0, 1, 0, 2, 0, 4, 5], tag="c08") + \
+        jobs = conc_jobs(ctx, 16, 100, native=0, variant=[0, 0, 1, 0, 2, 0, 4, 5], tag="c08") + \
             conc_jobs(ctx, 4, 25, native=1, variant=[0, 1], first=100000, tag="c08n")
     else:
         jobs = conc_jobs(ctx, 64, 600, native=0, variant=[0, 0, 1, 0, 2, 3, 4, 5], tag="c08") + \
@@ -525,7 +525,7 @@ def c09(ctx):
     if ctx.replay:
         return do_replay(ctx)
     if ctx.quick:
-        jobs = conc_jobs(ctx, 16, 50, native=0, variant=[2, 3, 4, 5, 6, 1, 0, 2], first=50000, tag="c09")
+        jobs = conc_jobs(ctx, 16, 100, native=0, variant=[2, 3, 4, 5, 6, 1, 0, 2], first=50000, tag="c09")
     else:
         jobs = conc_jobs(ctx, 64, 800, native=0, variant=[2, 3, 4, 5, 6, 1, 0, 2], first=50000, tag="c09")
     agg = Agg().add(runner.run_jobs(jobs))
@@ -794,7 +794,7 @@ def c19(ctx):
         return do_replay(ctx)
     jobs = []
     if ctx.quick:
-        plan = [("rel", k * 24, 24, 800) for k in range(16)] + [("asan", 5000 + k * 3, 3, 300) for k in range(4)]
+        plan = [("rel", k * 40, 40, 800) for k in range(16)] + [("asan", 5000 + k * 3, 3, 300) for k in range(4)]
     else:
         plan = [("rel", k * 250, 250, 800) for k in range(16)] + [("asan", 50000 + k * 30, 30, 400) for k in range(16)]
     for flavour, first, count, steps in plan:
@@ -923,7 +923,7 @@ def c16(ctx):
         return do_replay(ctx)
     J = lambda *a, **k: shard_jobs(ctx, "fmtmon_table", *a, **k)
     if ctx.quick:
-        jobs = (J("rel", "table", 0, 1728, 12) + J("asan", "table", 4000, 48, 4) + J("rel", "snappy", 0, 1200, 6) +
+        jobs = (J("rel", "table", 0, 3456, 16) + J("asan", "table", 4000, 96, 4) + J("rel", "snappy", 0, 1200, 6) +
                 J("asan", "snappy", 4000, 240, 2) + J("rel", "sep", 0, 100000, 1) + J("asan", "sep", 0, 40000, 1))
     else:
         jobs = (J("rel", "table", 0, 69120, 32) + J("rel", "table", 200000, 17280, 32, ["--big", 1]) +
